@@ -12,6 +12,7 @@ with the GROUP numbers and declared associativities of the operator list in forc
 tuple), evaluated on the real tree, plus `yield(tree) == tokens`.  By `C02.parse_roundtrip` at most
 one tree satisfies both, so a tree that fails either is not the tree the table dictates.
 """
+import copy
 import itertools
 import json
 import time
@@ -27,7 +28,8 @@ from yaql import legacy
 
 ID = 'C02'
 LEAN_MODULES = ['Yaql.Props.C02', 'Yaql.Props.C02Table', 'Yaql.Props.C02Levels', 'Yaql.Props.C02Order',
-                'Yaql.Props.C02Iso', 'Yaql.Props.C02Gen', 'Yaql.Props.C03Parse'] + srcobl.modules('C02')   # Props/SrcOpTable
+                'Yaql.Props.C02Iso', 'Yaql.Props.C02Gen', 'Yaql.Props.C03Parse', 'Yaql.Props.C02Hist'] + \
+    srcobl.modules('C02')   # Props/SrcOpTable
 REQUIRED_THEOREMS = [
     'Yaql.Props.C02.parse_sound', 'Yaql.Props.C02.parse_roundtrip', 'Yaql.Props.C02.parse_unique',
     'Yaql.Props.C02.yield_injective', 'Yaql.Props.C02.parse_complete', 'Yaql.Props.C02.parse_iff',
@@ -44,6 +46,9 @@ REQUIRED_THEOREMS = [
     'Yaql.Props.C02Gen.default_tuple', 'Yaql.Props.C02Gen.legacy_tuple',
     'Yaql.Props.C02Gen.defaultDelegates_tuple', 'Yaql.Props.C02Gen.legacyDelegates_tuple',
     'Yaql.Props.C02Gen.default_ops', 'Yaql.Props.C02Gen.legacy_ops',
+    'Yaql.Props.C02Hist.engine_stable', 'Yaql.Props.C02Hist.snapshot_kept', 'Yaql.Props.C02Hist.later_inserts_irrelevant',
+    'Yaql.Props.C02Hist.copy_parses_like_origin', 'Yaql.Props.C02Hist.demo_snapshots',
+    'Yaql.Props.C02Hist.regenerating_copy_differs',
 ] + srcobl.theorems('C02')
 TRUSTED = ["ply's LALR(1) table construction and precedence-based conflict resolution (differentially tested only)",
            'the real ply lexer is used to tokenise (the lexer model belongs to C01/C03/C16)']
@@ -73,21 +78,37 @@ class Eng:
         fac = (factory.YaqlFactory if kind == 'default' else legacy.YaqlFactory)(allow_delegates=delegates)
         self.base = [list(r) for r in fac.operators]
         self.steps = []
-        # a factory with a history: engines were created from it BEFORE (some of) the inserts; the engine under test
-        # is the one created afterwards and must follow the table as it is then
+        # a factory with a HISTORY (Model/EngineHist): engines are created from it BEFORE (some of) the inserts, copies of
+        # them are made at once and again after all edits, and `engine(text, options=..)` is used after all edits; the
+        # engine under test (`self.engine`) is created last and must follow the table as it is then.  `self.hist` lists
+        # every engine in creation order: how it was made, the index of the create()d engine it descends from (`root`),
+        # how many insert_operator calls had been made when that root was created (`k`) and the factory's list then.
         hfac = None
         if any(i.get('created') for i in self.inserts):
             hfac = (factory.YaqlFactory if kind == 'default' else legacy.YaqlFactory)(allow_delegates=delegates)
-        self.early = []          # (engine created before an insert, the operator records at that time)
-        for ins in self.inserts:
+        self.hist, self.hops = [], []
+        for idx, ins in enumerate(self.inserts):
             if hfac is not None and ins.get('created'):
-                self.early.append((hfac.create(), [tuple(r) for r in hfac.operators]))
+                recs = [tuple(r) for r in hfac.operators]
+                # one engine that is not touched at all until the factory has been edited (first USE after the edits) ...
+                self.hist.append(dict(how='create(), first used after all edits', engine=hfac.create(), root=len(self.hist),
+                                      k=idx, records=recs))
+                self.hops.append(dict(op='create'))
+                # ... and one that is copied at once
+                root = len(self.hist)
+                early = hfac.create()
+                self.hist.append(dict(how='create()', engine=early, root=root, k=idx, records=recs))
+                self.hops.append(dict(op='create'))
+                self.hist.append(dict(how='copy() made before the factory was edited',
+                                      engine=early.copy({'yaql.limitIterators': 1000 + idx}), root=root, k=idx, records=recs))
+                self.hops.append(dict(op='copy', i=root))
             try:
                 fac.insert_operator(ins['ex'], ins['bin'], ins['sym'], ins['ty'], ins['cg'], ins['alias'])
                 self.steps.append([list(r) for r in fac.operators])
             except ValueError:
                 self.steps.append(None)
             if hfac is not None:
+                self.hops.append(dict(ins, op='insert'))
                 try:
                     hfac.insert_operator(ins['ex'], ins['bin'], ins['sym'], ins['ty'], ins['cg'], ins['alias'])
                 except ValueError:
@@ -96,7 +117,23 @@ class Eng:
         self.records = [tuple(r) for r in fac.operators]
         self.engine, self.cap = optables.capture(fac)
         if hfac is not None:
+            self.twin_of_final = self.engine
             self.engine = hfac.create()
+            self.hist.append(dict(how='create() after all edits', engine=self.engine, root=len(self.hist),
+                                  k=len(self.inserts), records=[tuple(r) for r in hfac.operators]))
+            self.hops.append(dict(op='create'))
+            # descendants made AFTER the factory was edited, of every engine there is
+            for j, h in enumerate(list(self.hist)):
+                self.hist.append(dict(h, how='copy() made after all edits of [%s]' % h['how'],
+                                      engine=h['engine'].copy({'yaql.memoryQuota': 100000 + j})))
+                self.hops.append(dict(op='copy', i=j))
+                self.hist.append(dict(h, how='engine(text, options=..) after all edits of [%s]' % h['how'],
+                                      engine=(lambda text, e=h['engine'], j=j: e(text, options={'yaql.limitIterators': 77 + j}))))
+                self.hops.append(dict(op='copy', i=j))
+        try:
+            self.engine_copy = self.engine.copy({'yaql.memoryQuota': 1000000})
+        except Exception:       # noqa
+            self.engine_copy = None
         self.table = self.cap['table'].operators          # sym -> (up, bp, name, alias)
         self.name2sym = {v[2]: k for k, v in self.table.items()}
         # group data of the operator list (the property's vocabulary)
@@ -242,10 +279,24 @@ def tree_json(e):
     raise TypeError('unexpected node %r' % type(e))
 
 
+PROVENANCE = {}
+
+
 def real_parse(eng, text):
     """('ok', tree-json, statement) | ('grammar', position) | ('lexical', position) | ('foreign', repr)"""
     try:
-        st = eng.engine(text)
+        # engine provenance: most texts through the engine itself, a quarter through a copy() of it, a few through
+        # engine(text, options=..) - the table in force is the same for all three
+        h = zlib.crc32(text.encode('utf8', 'replace')) % 200
+        cp = getattr(eng, 'engine_copy', None)
+        if h == 0 and cp is not None:
+            PROVENANCE['engine(text, options=..)'] = PROVENANCE.get('engine(text, options=..)', 0) + 1
+            st = eng.engine(text, options={'yaql.limitIterators': 1000})
+        elif h % 4 == 1 and cp is not None:
+            PROVENANCE['engine.copy(..)(text)'] = PROVENANCE.get('engine.copy(..)(text)', 0) + 1
+            st = cp(text)
+        else:
+            st = eng.engine(text)
         return ('ok', tree_json(st.expression))
     except exceptions.YaqlGrammarException as ex:
         return ('grammar', ex.position)
@@ -954,39 +1005,106 @@ def insert_contract(before, ins, after):
 EARLY_HIST = {}
 
 
-def check_early(eng, rng, res, hist):
-    """an engine keeps the operator table it was created with: engines created from the factory BEFORE later
-    insert_operator calls must still parse like a fresh engine built from the records of that moment"""
-    for k, (early, records) in enumerate(eng.early):
-        twin_fac = (factory.YaqlFactory if eng.kind == 'default' else legacy.YaqlFactory)(allow_delegates=eng.delegates)
-        twin_fac.operators = [tuple(r) for r in records]
-        try:
-            twin_engine = twin_fac.create()
-        except Exception:       # noqa - the table of that moment was not a valid one: nothing to compare
+class Routed:
+    """stands for an engine that is reached some other way (a copy, a per-call copy): texts are tokenised by `lexer`,
+    parsed by `call`"""
+
+    def __init__(self, lexer, call):
+        self.lexer, self.call = lexer, call
+
+    def __call__(self, text):
+        return self.call(text)
+
+
+def history_texts(rng, eng, twin, n):
+    """probe texts for an engine with a past: flat sequences over the symbols of its own table AND the symbols inserted
+    into the factory at any time (under the engine's own table those spell other tokens - or nothing), blanks dropped
+    at random"""
+    syms = [r[0] for r in twin.records if len(r) > 1 and r[0] not in ('[]', '{}')]
+    later = [i['sym'] for i in eng.inserts]
+    out = []
+    for _ in range(n):
+        k = rng.randrange(1, 5)
+        toks = []
+        for i in range(k):
+            if rng.random() < 0.3:
+                toks.append(rng.choice(later + syms))
+            toks.append(rng.choice(['$a', '1', '$b', '2', 'c', "'s'"]))
+            if rng.random() < 0.15:
+                toks.append(rng.choice(later + syms))          # suffix position
+            if i < k - 1:
+                toks.append(rng.choice(later + later + syms))
+        text = toks[0]
+        for t in toks[1:]:
+            text += ('' if rng.random() < 0.3 else ' ') + t
+        out.append(text)
+    return out
+
+
+def check_history(eng, drv, rng, res, hist):
+    """engine provenance x factory history: an engine parses by the operator table its factory had when create() made
+    it (C02Hist.snapshot_kept) - the engine itself, copies of it made before and after the factory was edited, copies of
+    copies, and engine(text, options=..) used after the edits.  Reference (real code alone): a fresh engine built from a
+    fresh factory holding the operator list of that moment.  Model: `EngineHist.exec` names root and list per engine."""
+    if not eng.hist:
+        return
+    fail_replay = dict(kind=eng.kind, delegates=eng.delegates, inserts=eng.inserts, text=None)
+    if drv is not None:
+        req = dict(p='C02', op='history', hops=eng.hops, inserts=[])
+        req.update(base=[rec_json(r) for r in eng.base], delegates=eng.delegates)
+        ans = drv.ask(req)
+        res.traces += 1
+        real = [dict(root=h['root'], snap=[rec_json(r) for r in h['records']], delegates=eng.delegates) for h in eng.hist]
+        if ans.get('engines') != real:
+            res.fail('mismatch', 'engine-history-model', '[%s] engines (root, operator list) real %s, model %s' % (
+                eng.label(), json.dumps(real)[:300], json.dumps(ans.get('engines'))[:300]), fail_replay)
+            return
+    twins = {}
+    for j, h in enumerate(eng.hist):
+        root = h['root']
+        if root not in twins:
+            if h['k'] == len(eng.inserts) and hasattr(eng, 'twin_of_final'):
+                twin = copy.copy(eng)
+                twin.engine, twin.hist, twin.engine_copy = eng.twin_of_final, [], None
+            else:
+                try:
+                    twin = Eng(eng.kind, eng.delegates, [dict(i, created=False) for i in eng.inserts[:h['k']]])
+                except Exception:       # noqa - the list of that moment is not a valid table: nothing to compare
+                    twin = None
+            twins[root] = twin
+            if twin is not None and [tuple(r) for r in twin.records] != [tuple(r) for r in h['records']]:
+                twins[root] = None      # (cannot happen: the same calls on a fresh factory)
+        twin = twins[root]
+        if twin is None:
             continue
-        twin = Eng.__new__(Eng)
-        twin.engine = twin_engine
-        syms = [r[0] for r in records if len(r) > 1 and r[1] in BIN_TYPES and r[0] not in ('[]', '{}')]
-        pres = [r[0] for r in records if len(r) > 1 and r[1] == OT.PREFIX_UNARY]
-        for _ in range(25):
-            n = rng.randrange(1, 5)
-            toks = []
-            for i in range(n):
-                if pres and rng.random() < 0.3:
-                    toks.append(rng.choice(pres))
-                toks.append(rng.choice(['$a', '1', '$b', '2']))
-                if i < n - 1:
-                    toks.append(rng.choice(syms))
-            text = ' '.join(toks)
-            a, b = real_parse_engine(early, text), real_parse_engine(twin_engine, text)
-            hist['early_engine_texts'] = hist.get('early_engine_texts', 0) + 1
-            res.case('early:%s:%s' % (eng.label(), text), True)
-            if a != b:
+        routed = copy.copy(twin)
+        routed.engine = Routed(twin.engine.lexer, h['engine'])
+        routed.engine_copy = None
+        routed.hist = []
+        lab = '%s || engine #%d: %s; root engine #%d created after %d insert_operator calls' % (
+            eng.label(), j, h['how'], root, h['k'])
+        routed.label = lambda lab=lab: lab
+        b = Batch(routed, drv, res, hist)
+        b.replay_extra = dict(fail_replay)
+        n0 = len(res.failures)
+        for text in history_texts(rng, eng, twin, 30):
+            a, t = real_parse_engine(h['engine'], text), real_parse_engine(twin.engine, text)
+            hist['engine_history_texts'] = hist.get('engine_history_texts', 0) + 1
+            hist['engine_history: ' + h['how'].split(' of [')[0]] = hist.get('engine_history: ' + h['how'].split(' of [')[0], 0) + 1
+            if a != t:
+                res.case('hist:%s:%s' % (lab, text), True)
                 res.fail('oracle', 'engine-follows-later-table',
-                         '[%s] an engine created before insert #%d parses %r as %s; the table it was created with dictates %s' % (
-                             eng.label(), k, text, json.dumps(a)[:160], json.dumps(b)[:160]),
-                         dict(kind=eng.kind, delegates=eng.delegates, inserts=eng.inserts, text=None, early=k, probe=text))
+                         '[%s] parses %r as %s; the table the factory had when the root engine was created dictates %s '
+                         '(a fresh engine from a fresh factory with that operator list)' % (
+                             lab, text, json.dumps(a)[:200], json.dumps(t)[:200]),
+                         dict(fail_replay, hist=j, probe=text))
                 return
+            b.add(text, 'engine_history')
+        b.flush()
+        for f in res.failures[n0:]:
+            f.replay = dict(fail_replay, hist=j, probe=f.replay.get('text'))
+        if len(res.failures) > n0:
+            return
 
 
 def real_parse_engine(engine, text):
@@ -1014,8 +1132,8 @@ def check_inserts(eng, res):
 def check_table(eng, drv, res):
     """insert_operator / _build_operator_table / _generate_operator_funcs: model vs live objects"""
     check_inserts(eng, res)
-    if getattr(eng, 'early', None):
-        check_early(eng, common.make_rng(0, 'C02early/' + eng.label()), res, EARLY_HIST)
+    if getattr(eng, 'hist', None):
+        check_history(eng, drv, common.make_rng(0, 'C02hist/' + eng.label()), res, EARLY_HIST)
     if drv is None:
         return
     req = dict(p='C02', op='table')
@@ -1267,15 +1385,20 @@ def run(env, res):
         # a prefix operator sharing a group with left-associative binaries
         ('default', False, [dict(ex='*', bin=True, sym='~', ty=OT.PREFIX_UNARY, cg=False, alias=None)]),
         # suffix operators: tightest group, a middle group of their own, loosest group
-        ('default', True, [dict(ex=None, bin=True, sym='!', ty=OT.SUFFIX_UNARY, cg=True, alias=None),
+        ('default', True, [dict(ex=None, bin=True, sym='!', ty=OT.SUFFIX_UNARY, cg=True, alias=None, created=True),
                            dict(ex='+', bin=True, sym='?', ty=OT.SUFFIX_UNARY, cg=True, alias='q'),
-                           dict(ex='->', bin=True, sym='!!', ty=OT.SUFFIX_UNARY, cg=True, alias=None)]),
+                           dict(ex='->', bin=True, sym='!!', ty=OT.SUFFIX_UNARY, cg=True, alias=None, created=True)]),
         # new groups at the front, in the middle, at the end; word operator; prefix of an existing symbol
-        ('legacy', False, [dict(ex=None, bin=True, sym='**', ty=OT.BINARY_RIGHT_ASSOCIATIVE, cg=True, alias='pow'),
+        ('legacy', False, [dict(ex=None, bin=True, sym='**', ty=OT.BINARY_RIGHT_ASSOCIATIVE, cg=True, alias='pow', created=True),
                            dict(ex='and', bin=True, sym='xor', ty=OT.BINARY_LEFT_ASSOCIATIVE, cg=True, alias=None),
-                           dict(ex='=>', bin=True, sym='=>>', ty=OT.BINARY_RIGHT_ASSOCIATIVE, cg=True, alias=None),
+                           dict(ex='=>', bin=True, sym='=>>', ty=OT.BINARY_RIGHT_ASSOCIATIVE, cg=True, alias=None, created=True),
                            dict(ex='not', bin=False, sym='<-', ty=OT.PREFIX_UNARY, cg=False, alias=None)]),
     ]
+    probes.append(
+        # a factory that keeps being edited after engines were taken from it; the new symbols run into existing lexemes
+        ('default', False, [dict(ex='-', bin=True, sym='--', ty=OT.BINARY_LEFT_ASSOCIATIVE, cg=False, alias=None, created=True),
+                            dict(ex='*', bin=True, sym='div', ty=OT.BINARY_LEFT_ASSOCIATIVE, cg=False, alias=None, created=True),
+                            dict(ex='not', bin=False, sym='++', ty=OT.PREFIX_UNARY, cg=False, alias=None)]))
     for kind, delegates, ins in probes:
         try:
             e = Eng(kind, delegates, ins)
@@ -1337,6 +1460,7 @@ def run(env, res):
     # oracle failures first
     res.failures = sorted(shrunk, key=lambda f: f.kind != 'oracle') + res.failures[6:]
     hist.update(EARLY_HIST)
+    hist['provenance_of_standard_batches'] = dict(PROVENANCE)
     res.extra['histogram'] = hist
     res.extra['wall_correspondence_s'] = round(time.time() - t0, 1)
     return res
@@ -1384,7 +1508,10 @@ LEVEL_TEXT = ('Lean 4 theorems over a code-shaped model of insert_operator, _bui
               '(default, legacy, with/without delegates) and by differential runs of the compiled model against the '
               'real engine (exhaustive <=3 binary x <=2 prefix operators on both standard tables in the thorough tier, '
               'random forms, custom tables, dictated trees, token soups).')
-LEVEL_NOTE = ("trusted: Lean kernel; ply's LALR(1) construction and conflict resolution (the model is a precedence "
+LEVEL_NOTE = ("round 5: EngineHist model of one factory over time (insert / create / copy) with C02Hist.snapshot_kept and "
+              "later_inserts_irrelevant (an engine and all its copies, whenever made, parse by the table of create() time, for every later "
+              "history); tied by replaying the same host operations on real factories and comparing every descendant with a fresh engine "
+              "of creation time. trusted: Lean kernel; ply's LALR(1) construction and conflict resolution (the model is a precedence "
               'machine, equivalence is differential); the real ply lexer tokenises in the correspondence; hand-written '
               'models Yaql/Model/OpTable.lean and Parser.lean. ply_order_iso assumes lexeme names are distinct across '
               'rows (kernel-checked for the live tables, not proved for the name generator in general). Known finding: '
